@@ -127,7 +127,7 @@ func readContractLines(path string) ([]cline, error) {
 	return out, nil
 }
 
-var funcHdrRe = regexp.MustCompile(`^(?:\(\s*(\w+)\s+\*?([\w./\-]+)\s*\)\s*)?([\w$]+)(?:\((.*?)\))?(?:\s*\((.*?)\))?\s*$`)
+var funcHdrRe = regexp.MustCompile(`^(?:\(\s*(\w+)\s+\*?([\w./\-]+)\s*\)\s*)?([\w$./\-]+)(?:\((.*?)\))?(?:\s*\((.*?)\))?\s*$`)
 
 func (cs *ContractSet) LoadFile(path, pkgPath string) error {
 	lines, err := readContractLines(path)
